@@ -702,3 +702,43 @@ def as_increment(stmt: ast.stmt):
         if isinstance(r, ast.Name) and r.id == t:
             return t, l
     return None
+
+
+def inline_single_defs(fn: ast.AST, expr: ast.expr, keep=(), depth: int = 4) -> ast.expr:
+    """copy of expr in which every local that has exactly ONE binding in fn - a plain `name = <expression>` - is replaced by
+    that expression (recursively): temporaries introduced or removed by a refactor do not change what a rule sees.
+    Names in `keep`, parameters, loop / comprehension / with targets and names bound more than once stay."""
+    import copy
+
+    binds: Dict[str, list] = {}
+    for n in ast.walk(fn):
+        if isinstance(n, ast.Assign):
+            for t in n.targets:
+                for x in ast.walk(t):
+                    if isinstance(x, ast.Name) and isinstance(x.ctx, ast.Store):
+                        binds.setdefault(x.id, []).append(n if (len(n.targets) == 1 and t is x) else None)
+        elif isinstance(n, (ast.AugAssign, ast.AnnAssign)) and isinstance(n.target, ast.Name):
+            binds.setdefault(n.target.id, []).append(None)
+        elif isinstance(n, (ast.For, ast.comprehension)):
+            for x in ast.walk(n.target):
+                if isinstance(x, ast.Name):
+                    binds.setdefault(x.id, []).append(None)
+        elif isinstance(n, ast.withitem) and n.optional_vars is not None:
+            for x in ast.walk(n.optional_vars):
+                if isinstance(x, ast.Name):
+                    binds.setdefault(x.id, []).append(None)
+        elif isinstance(n, ast.arg):
+            binds.setdefault(n.arg, []).append(None)
+    singles = {k: v[0].value for k, v in binds.items() if len(v) == 1 and v[0] is not None and k not in keep
+               and not isinstance(v[0].value, (ast.Lambda, ast.ListComp, ast.DictComp, ast.SetComp, ast.GeneratorExp, ast.List, ast.Dict, ast.Set))}
+
+    def sub(e, d):
+        class T(ast.NodeTransformer):
+            def visit_Name(self, n):
+                if isinstance(n.ctx, ast.Load) and n.id in singles and d > 0:
+                    return sub(copy.deepcopy(singles[n.id]), d - 1)
+                return n
+
+        return T().visit(e)
+
+    return sub(copy.deepcopy(expr), depth)
